@@ -24,9 +24,13 @@ class GenL:
         r = self.r; x = r.random()
         if x < 0.45: return ["V" + hx(self.g.bytestr())]
         if x < 0.6: return ["V" + hx(r.choice([b"", b"5", b"007", b"-1", b"1e3", b"true", b"nil", b"os.exit()", b"0x10", b" 12 "]))]
-        if x < 0.85:
+        if x < 0.8:
             n = r.choice([0, 1, -1, 7, 10, 42, r.randrange(-10**6, 10**6), r.randrange(0, 10**14)])
             return ["I" + hx(str(n).encode())]
+        if x < 0.86:
+            # reals of up to 15 significant digits whose decimal text survives the trip through a double unchanged
+            return ["I" + hx(r.choice([b"0.5", b"2.5", b"0.001", b"3.14159265358979", b"0.333333333333333", b"123456789012.345", b"-7.25", b"0.1", b"0.3",
+                                       b"1234.5678", b"100.125", b"0.000123456789012345"]))]
         return ["I" + hx(r.choice([b"true", b"false"]))]
 
     def value(self, depth=0, top=False):
